@@ -53,17 +53,9 @@ def parseTable (s : String) : List (String × String) :=
     | [f, c] => some (f, c)
     | _ => none
 
-def stopName : Stop → String
-  | .eof => "ok"
-  | .err e => e.name
-
-def obsLine (err : String) (reqs : List String) : String :=
-  s!"err={err} n={reqs.length} reqs={";".intercalate reqs}"
-
 /-- model observation of a list of decoded ammo: `none` when some URL is outside the modelled class -/
-def ammoObs (res : List Ammo × Stop) : Option String := do
-  let reqs ← res.1.mapM buildReq
-  pure (obsLine (stopName res.2) (reqs.map reqStr))
+def ammoObs (res : List Ammo × Stop) : Option String :=
+  (modelObs res).map fun o => obsLine o.1 o.2
 
 /-- raw: requests are delivered until the first frame that `http.ReadRequest` rejects (Acquire returns false) -/
 def rawObs (tbl : List (String × String)) (res : List RawAmmo × Stop) : Option String := do
@@ -83,9 +75,6 @@ def parseObs (impl : String) : Option (String × List String) :=
   | some e, some r => some (e, splitList r ";")
   | _, _ => none
 
-/-- all raw lines of the file fit a bufio.Scanner token -/
-def linesFit (file : Bytes) : Bool := (splitOn LF file).all fun l => l.length < maxTok
-
 def parseEntity (s : String) : Option Entity :=
   match s.splitOn ":" with
   | [h, m, u, t, b, hs] => do
@@ -95,8 +84,6 @@ def parseEntity (s : String) : Option Entity :=
       | _ => none
     pure { host := ← hexB h, method := ← hexB m, uri := ← hexB u, tag := ← hexB t, body := ← hexB b, headers := hdrs }
   | _ => none
-
-def entityKnown (e : Entity) : Bool := uriOK e.uri && (e.host.isEmpty || hostOK e.host) && validMethod e.method
 
 def handleFile (f : Fmt) (kv : List (String × String)) (impl : String) : String × String :=
   let k := (getN? kv "k").getD 1
@@ -124,9 +111,9 @@ def handleFile (f : Fmt) (kv : List (String × String)) (impl : String) : String
           | .raw =>
             let fr := expFrames items
             let strs := fr.mapM fun ft =>
-              match lookup tbl (hex ft.1) with
+              match lookup tbl (hex ft.frame) with
               | some "!" => none
-              | some c => some (c ++ ",t=" ++ hex ft.2)
+              | some c => some (c ++ ",t=" ++ hex ft.tag)
               | none => none
             match strs with
             | none => (m, "skip:frame-not-a-request")
